@@ -86,13 +86,30 @@ Definition first_raise (rs : raises) (layers : list bytes) (core : bytes) : opti
   | Done => None
   end.
 
-Definition served_obs (r : sres) : list bytes :=
+Definition served_obs (head_wrapped : bool) (r : sres) : list bytes :=
   match r with
   | SPanic => [bs "panic"; bs "runtime"]
   | SOk s =>
     [bs "served"; print_core (s_handler s); print_h (s_handler s) ++ [31] ++ join [31] (layers_of (s_handler s)); s_router s; s_path s;
      join [31] (s_recovered s); match s_escaped s with Some v => bs "=" ++ v | None => bs "-" end;
-     match s_node s with Some n => npat n | None => [] end] ++ flat_params (s_params s)
+     match s_node s with Some n => npat n | None => [] end;
+     (* bytes the client received: the harness's recovery function writes a 9-byte body; the HEAD wrapper
+        (installed only when a handler for HEAD was found) swallows it *)
+     match s_recovered s with
+     | [] => bs "0"
+     | _ => if head_wrapped then bs "0" else bs "9"
+     end] ++ flat_params (s_params s)
+  end.
+
+(* serveContext wraps the writer for HEAD only when Tree.Handler reported a registered handler *)
+Definition head_wrapped_of (method : bytes) (r : sres) : bool :=
+  beqb method HEAD &&
+  match r with
+  | SOk s => match s_node s with
+             | Some n => match lookup_handler method (nhandlers n) with Some _ => true | None => false end
+             | None => false
+             end
+  | SPanic => false
   end.
 
 Definition mreq_of (o : line) (i : nat) : mreq :=
@@ -149,14 +166,17 @@ Definition step_gr (s : sgr) (o : line) : sgr * list bytes :=
     (* greq method host path accept parsed? <n> k v … <m> (layer phase value)… *)
     let q := mreq_of o 2 in
     let rs := parse_raises (fst (take_list (snd (take_list (skipn 6 a))))) in
-    (s, served_obs (g_serve (grp s) q rs (arg 1 o)))
+    let res := g_serve (grp s) q rs (arg 1 o) in
+    (s, served_obs (head_wrapped_of (arg 1 o) res) res)
   else if beqb op (bs "rreq") then
     (* rreq router method path <m> raises… *)
     let rs := parse_raises (fst (take_list (skipn 4 a))) in
     match alookup (arg 1 o) (solo s) with
-    | Some (r, rec) => (s, served_obs (serve_ctx r rec rs (arg 2 o) (arg 3 o) []))
+    | Some (r, rec) => let res := serve_ctx r rec rs (arg 2 o) (arg 3 o) [] in
+                       (s, served_obs (head_wrapped_of (arg 2 o) res) res)
     | None => (s, [bs "norouter"])
     end
+  else if beqb op (bs "poolprobe") then (s, [bs "1"])    (* two contexts taken from the pool are distinct objects *)
   else (s, [bs "unknown-op"]).
 
 (* ---------------------------------------------------------------- oracles *)
@@ -218,7 +238,8 @@ Definition oracle_gr_all (s s' : sgr) (o : line) (r : list bytes) : list bytes :
     let term := nth 0 tl_ [] in let layers := filter (fun x => negb (beqb x [])) (skipn 1 tl_) in
     let rname := nth 3 r [] in let path := nth 4 r [] in
     let recovered := nth 5 r [] in let escaped := nth 6 r [] in
-    let ps := pairs (skipn 8 r) in
+    let ps := pairs (skipn 9 r) in
+    let bodylen := nth 8 r [] in
     (* ---- C13: first accepting router, request as the matcher produced it, matcher params present *)
     (if is_g then
        match first_accepting (gspec s) (mreq_of o 2) with
@@ -232,7 +253,16 @@ Definition oracle_gr_all (s s' : sgr) (o : line) (r : list bytes) : list bytes :
          check (beqb rname name) "C13:not-the-first-accepting-router" ++
          check (beqb path (m_path q')) "C13:router-saw-a-different-path" ++
          check (forallb (fun kv => match ctx_get ps (fst kv) with Some v => beqb v (snd kv) | None => false end) mps)
-               "C13:matcher-parameters-missing"
+               "C13:matcher-parameters-missing" ++
+         (* nothing but the accepting matcher's parameters and the route's own captures *)
+         (match tokens (nth 7 r []) with
+          | Some ts => check (forallb (fun kv => ahas (fst kv) mps || mem (fst kv) (capture_names ts)) ps)
+                             "C13:parameters-left-by-a-rejecting-matcher"
+          | None => match nth 7 r [] with
+                    | [] => check (forallb (fun kv => ahas (fst kv) mps) ps) "C13:parameters-left-by-a-rejecting-matcher"
+                    | _ => []
+                    end
+          end)
        end
      else []) ++
     (* ---- C16: the first raised value reaches the recovery function exactly once, or escapes unchanged *)
@@ -244,6 +274,8 @@ Definition oracle_gr_all (s s' : sgr) (o : line) (r : list bytes) : list bytes :
        else match alookup (arg 1 o) (solo s) with Some (_, rec) => rec | None => false end in
      (* which value is raised first is decided by the onion order of the handler that ran (C09 judges that order) *)
      let expected := first_raise rs layers core in
+     (if beqb (arg (if is_g then 1 else 2) o) HEAD && beqb core (bs "U:" ++ skipn 2 core) && has_prefix core (bs "U:")
+      then check (beqb bodylen (bs "0")) "C08:head-delivers-body-bytes" else []) ++
      match expected with
      | None => check (beqb recovered [] && beqb escaped (bs "-")) "C16:recovery-without-a-panic"
      | Some v =>
@@ -254,6 +286,8 @@ Definition oracle_gr_all (s s' : sgr) (o : line) (r : list bytes) : list bytes :
          check (beqb escaped (bs "=" ++ v)) "C16:panic-value-not-passed-through" ++
          check (beqb recovered []) "C16:recovery-function-called-without-the-option"
      end)
+  else if beqb op (bs "poolprobe") then
+    check (obs_is r "1") "C16:context-returned-to-the-pool-twice" ++ check (obs_is r "1") "C07:context-returned-to-the-pool-twice"
   else if beqb op (bs "gnew") then
     check (negb (obs_is r "ok" && ahas (arg 1 o) (gspec s))) "C13:duplicate-router-name-accepted"
   else [].
